@@ -12,7 +12,7 @@ D6 the *configured* timeout is the one applied: every housekeeping pass refreshe
    before the liveness test that decides a teardown.
 """
 from ..absint import AbsInt, Entry, Num
-from ..ctx import is_awaited_result_of, CONN, bool_branches, is_call, is_field, is_iter_next, result_arms, sname
+from ..ctx import full_slice_element, is_awaited_result_of, CONN, bool_branches, is_call, is_field, is_iter_next, result_arms, sname
 from ..expr import show, walk
 from ..pathcond import calls_to, field_stores
 from . import C01
@@ -231,7 +231,7 @@ def d6_configured_timeout_applied(ctx):
             val = fa.val_operand(rt["args"][-1], (rb, nst))
             from_cfg = any(is_field(x, "conn_timeout_ms") and "ConfigSnapshot" in str(x[2]) for x in walk(val)) or \
                 any(is_call(x, name_contains="conn_timeout") for x in walk(val))
-            all_links = any(is_call(x, name_contains="iter_mut") for x in walk(link))
+            all_links = full_slice_element(link) is not None
             if from_cfg and all_links:
                 found = (rb, val)
             else:
